@@ -189,6 +189,7 @@ class Intervals(Unit):
         return pred_patches()
 
     def build(self, S):
+        S.time_eps(RV(Fraction(4, 10**11)))          # Time.isclose default tolerance (~2 eps of a day)
         span = S.real("span")
         S.assume(span > Fraction(1, 100))
         S.assume(span < 10**6)
@@ -266,6 +267,7 @@ class Evaluate(Unit):
         return pred_patches()
 
     def build(self, S):
+        S.time_eps(RV(Fraction(4, 10**11)))
         pp, txt = load(self.which)
         ents = text_entries(txt)
         secs = [sec_of(t) for t in pp["tmid"]]                      # what the real parser produced (used by the code under test)
